@@ -1,5 +1,6 @@
-(* Stages B-D assembled: for programs over top-level variables - declarations, assignments, expression statements,
-   conditionals and condition loops (with break and continue) nested to any depth, any scalar expressions over the variables declared so far -
+(* Stages B-E assembled: for programs over variables - declarations (at the top level and inside blocks), assignments,
+   compound assignments, ++ / --, expression statements, conditionals and condition loops (with break and continue)
+   nested to any depth, any scalar expressions over the variables visible at that point -
    compiling with the compiler model and running the result on the VM model gives what the reference semantics
    gives, whenever the program ends (its source-level run [run_stmts] returns with some fuel). *)
 From Coq Require Import List ZArith NArith Bool Arith Lia.
@@ -31,41 +32,44 @@ Section Names.
   Hypothesis names_nonempty : Forall (fun nm => nm <> []) names.
 
   Theorem run_var_program l tabs ng n r :
-    l <> [] -> wf_stmts true false 0 l = true -> ndecls l <= ng -> max_need l <= MAXSTACK ->
+    l <> [] -> wf_stmts false 0 l = true -> ndecls l <= ng -> max_need l <= MAXSTACK ->
     run_stmts n [] l VNil = Some r ->
     exists k s', forall f,
-      VM.run (k + S f) (Code main_id main_id false 0 (fst (pcode 0 0 l)) (snd (pcode 0 0 l)) [] [] []) tabs ng [] =
+      VM.run (k + S f) (Code main_id main_id false 0 (fst (pcode l)) (snd (pcode l)) [] [] []) tabs ng [] =
       match top_result r with
       | inl v => RVal (VMScalarProofs.inj v) s'
       | inr x => RErr (cls x) s'
       end.
   Proof.
     intros Hne Hwf Hng Hn Hr.
-    set (c := Code main_id main_id false 0 (fst (pcode 0 0 l)) (snd (pcode 0 0 l)) [] [] []).
+    set (c := Code main_id main_id false 0 (fst (pcode l)) (snd (pcode l)) [] [] []).
     set (s0 := {| lists := []; maps := []; arrays := [repeat VGoNil ng]; iters := [];
                   globals := [] ++ repeat VGoNil (ng - length (@nil value)); trace := [] |}).
-    assert (Hinv : vm_inv [] (ndecls l + 0) s0).
-    { split; [cbn [length Nat.add globals s0 app]; rewrite repeat_length; cbn; lia|]. intros i Hi. cbn in Hi. lia. }
-    pose proof (no_escape_stmts n l [] true VNil r Hwf Hr) as Hno.
-    destruct (vm_prog tabs c 0 [0] [] [] true n l [] 0 s0 0 [] [] VNil r Hne Hinv Hwf) as [k [s' Hrun]]; try exact Hr.
+    assert (Hinv : vm_inv [] [] s0).
+    { split; [reflexivity|]. split; [constructor|]. intros i Hi. cbn in Hi. lia. }
+    assert (Hsl : slots_ok 0 (ndecls l) [] s0).
+    { split; [constructor|]. cbn [length Nat.add globals s0 app]. rewrite repeat_length. cbn. lia. }
+    pose proof (no_escape_stmts n l [] VNil r 0 Hwf Hr) as Hno.
+    destruct (vm_prog tabs c 0 [0] [] [] true n l [] [] 0 s0 0 [] [] VNil r Hne Hinv Hsl Hwf) as [k [s' Hrun]]; try exact Hr.
     - cbn [code_instr c app]. rewrite app_nil_r. reflexivity.
     - intros i kk Hi. cbn [code_consts c Nat.add]. apply nth_of_nth_error. exact Hi.
     - cbn [Nat.add]. exact Hn.
     - exists k, s'. intros f. unfold VM.run. fold s0. fold c.
       destruct r as [[rho v]|[x|rho|rho]]; cbn [top_result no_ctl] in *; try contradiction.
       + destruct Hrun as [_ Hrun]. specialize (Hrun (S f)). cbn [length] in Hrun.
+        change (strip (fst (scode 0 [] 0 l))) with (fst (pcode l)) in Hrun.
         rewrite Hrun. cbn [length Nat.add]. cbn [exec].
-        replace (nth_error (code_instr c) (length (fst (pcode 0 0 l)))) with (@None N);
+        replace (nth_error (code_instr c) (length (fst (pcode l)))) with (@None N);
           [reflexivity|symmetry; apply nth_error_None; cbn [code_instr c]; lia].
       + pose proof (Hrun (S f)) as H. cbn [length] in H. rewrite H. reflexivity.
   Qed.
 
   Theorem var_programs_end_to_end : forall l n r,
-    l <> [] -> wf_stmts true false 0 l = true -> ndecls l <= length names -> max_need l <= MAXSTACK ->
+    l <> [] -> wf_stmts false 0 l = true -> ndecls l <= length names -> max_need l <= MAXSTACK ->
     run_stmts n [] l VNil = Some r ->
-    exists c tabs, compile_program (S (max_height l)) [] (embed_stmts names 0 l) = inr (c, tabs) /\
+    exists c tabs, compile_program (S (max_height l)) [] (embed_stmts names 0 [] l) = inr (c, tabs) /\
     forall ng, ndecls l <= ng -> exists k, forall f fs, max_height l < fs -> n < fs ->
-      agree_on (top_result r) (fst (Sem.run fs (embed_stmts names 0 l))) (VM.run (k + S f) c tabs ng []).
+      agree_on (top_result r) (fst (Sem.run fs (embed_stmts names 0 [] l))) (VM.run (k + S f) c tabs ng []).
   Proof.
     intros l n r Hne Hwf Hd Hn Hr.
     destruct (compile_var_program names names_nodup l (max_height l) Hne Hd Hwf (le_n _)) as [tabs Hc].
@@ -74,7 +78,7 @@ Section Names.
     exists k. intros f fs Hfs Hnfs. split.
     - destruct fs as [|fs]; [lia|].
       rewrite (VarSemProofs.sem_var_program names names_nodup names_nonempty l n fs r Hwf Hd ltac:(lia) ltac:(lia) Hr).
-      pose proof (no_escape_stmts n l [] true VNil r Hwf Hr) as Hno.
+      pose proof (no_escape_stmts n l [] VNil r 0 Hwf Hr) as Hno.
       destruct r as [[rho v]|[x|rho|rho]]; cbn [no_ctl] in Hno; try contradiction; reflexivity.
     - rewrite Hrun. destruct (top_result r); eexists; reflexivity.
   Qed.
